@@ -812,6 +812,108 @@ def default_cases(seed):
 
 # ---------------------------------------------------------------------------
 
+# ---------------------------------------------------------------------------
+# events handled through the library's own handler registration (@EventCallback): several instances of one layer
+# class - in one stack and in stacks built one after the other in the same process - each see their stack's event
+
+CB_LOG = []
+
+
+def check_callback_instances(case):
+    from yowsup.layers import EventCallback, YowParallelLayer
+    ctor, order, group = case["ctor"], case["order"], case["group"]
+
+    class CbA(YowLayer):
+        @EventCallback("vf.cb")
+        def on_cb(self, ev):
+            CB_LOG.append(("A", id(self)))
+            return False
+
+    class CbB(CbA):
+        @EventCallback("vf.cb2")
+        def on_cb2(self, ev):
+            CB_LOG.append(("B2", id(self)))
+            return False
+
+    vs = []
+
+    def bad(sig, what, detail=None):
+        vs.append(("C18:callback:" + sig, what, {"kind": "callback", "ctor": ctor, "order": order, "group": group}, detail))
+
+    def build_one():
+        classes = {"AAB": (CbA, CbA, CbB), "BAA": (CbB, CbA, CbA), "ABA": (CbA, CbB, CbA)}[order]
+        if group:
+            layers = (CLASSES[0], YowParallelLayer(classes), CLASSES[1]) if ctor == "tuple" else None
+            if ctor == "builder":
+                layers = (CLASSES[0], classes, CLASSES[1])
+        else:
+            layers = (CLASSES[0],) + classes + (CLASSES[1],)
+        if ctor == "tuple":
+            return YowStack(layers, reversed=False)
+        b = YowStackBuilder()
+        for l in layers:
+            b.push(l)
+        return b.build()
+
+    def cb_instances(stack):
+        out = []
+        i = 0
+        while True:
+            try:
+                lay = stack.getLayer(i)
+            except Exception:
+                break
+            if lay is None:
+                break
+            if isinstance(lay, YowParallelLayer):
+                out.extend(x for x in lay.sublayers if hasattr(x, "on_cb"))
+            elif hasattr(lay, "on_cb"):
+                out.append(lay)
+            i += 1
+        return out
+
+    stacks = []
+    for round_ in range(2):
+        drain_queue()
+        try:
+            st = build_one()
+        except Exception as e:
+            bad("build-raises", "building the stack raised %r" % (e,))
+            return vs
+        stacks.append(st)          # the earlier stack stays alive, as after a reconnect that builds a new one
+        insts = cb_instances(st)
+        if len(insts) != 3:
+            bad("harness", "expected three handler layers, found %d" % len(insts))
+            return vs
+        for name, emit in (("vf.cb", "emit"), ("vf.cb", "broadcast"), ("vf.cb2", "emit")):
+            del CB_LOG[:]
+            if emit == "emit":
+                st.getLayer(0).emitEvent(YowLayerEvent(name))
+            else:
+                st.broadcastEvent(YowLayerEvent(name))
+            if name == "vf.cb":
+                exp = [("A", id(x)) for x in insts]
+                if emit == "broadcast" and not group:
+                    exp = list(reversed(exp))
+            else:
+                exp = [("B2", id(x)) for x in insts if type(x).__name__ == "CbB"]
+            got = list(CB_LOG)
+            if sorted(got) != sorted(exp):
+                own = set(id(x) for x in insts)
+                foreign = [g for g in got if g[1] not in own]
+                bad("handler-instances", "event %s (%s) in stack %d: the registered handlers that ran are not one per layer instance of this stack"
+                    % (name, emit, round_ + 1), {"ran": len(got), "expected": len(exp), "handlers_of_other_instances": len(foreign)})
+                return vs
+            if got != exp:
+                bad("handler-order", "event %s (%s): handlers ran out of stack order" % (name, emit))
+                return vs
+    return vs
+
+
+def callback_cases():
+    return [{"ctor": c, "order": o, "group": g} for c in ("tuple", "builder") for o in ("AAB", "BAA", "ABA") for g in (False, True)]
+
+
 def run(ctx):
     from vf.runner import shuffled
     if ctx.quick:
@@ -828,6 +930,12 @@ def run(ctx):
         def_nontrivial.add((case["helper"], tuple(case.get("flags") or ()), case.get("style"), case.get("layer"), case.get("axolotl")))
         ctx.add_violations(sorted(vs, key=lambda v: v[0]))
     ctx.sample({"helper": "getDefaultStack", "flags": [True, False, True, False], "layer": True, "axolotl": False})
+
+    n_cb = 0
+    for case in callback_cases():
+        n_cb += 1
+        ctx.add_violations(check_callback_instances(case))
+    ctx.coverage["callback_instance_cases"] = n_cb
 
     items = [(s, len(s) <= full_all_depth) for s in all_shapes(depth)]
     n_shapes = len(items)
@@ -881,6 +989,8 @@ def run(ctx):
 
 
 def replay(ctx, case):
+    if case.get("kind") == "callback":
+        return check_callback_instances(case)
     if case.get("kind") == "default":
         c = dict(case)
         c.pop("kind")
